@@ -326,8 +326,28 @@ fn build(kind: &str, blk: usize, old: &[u8], new: &[u8]) -> Result<Vec<u8>, Stri
 }
 
 fn suffix_array(old: &[u8]) -> Vec<usize> {
-    let mut idx: Vec<usize> = (0..old.len()).collect();
-    idx.sort_by(|&a, &b| old[a..].cmp(&old[b..]));
+    let n = old.len();
+    let mut idx: Vec<usize> = (0..n).collect();
+    if n < 2048 {
+        idx.sort_by(|&a, &b| old[a..].cmp(&old[b..]));
+        return idx;
+    }
+    // prefix doubling (the suffix array is unique; comparing whole suffixes is quadratic on the
+    // long periodic / single-byte contents of the shared-run stream)
+    let mut rank: Vec<usize> = old.iter().map(|b| *b as usize).collect();
+    let mut tmp = vec![0usize; n];
+    let mut k = 1usize;
+    loop {
+        let key = |r: &[usize], i: usize| (r[i], if i + k < n { r[i + k] + 1 } else { 0 });
+        idx.sort_by_key(|&i| key(&rank, i));
+        tmp[idx[0]] = 0;
+        for j in 1..n {
+            tmp[idx[j]] = tmp[idx[j - 1]] + (key(&rank, idx[j]) != key(&rank, idx[j - 1])) as usize;
+        }
+        rank.copy_from_slice(&tmp);
+        if rank[idx[n - 1]] == n - 1 { break; }
+        k *= 2;
+    }
     idx
 }
 
@@ -563,6 +583,9 @@ struct Ctx<'a> {
     /// LARGE pairs; the oracle runs all of `bufs`
     kstream: usize,
     kpstream: usize,
+    /// old contents from this length on are not read through schedules of only tiny reads (the
+    /// list-based model re-walks old on every read call: quadratic)
+    sread_coarse_from: usize,
 }
 
 /// oracle failure of a pair; large pairs stop recording after a few failures (each replay carries
@@ -719,7 +742,7 @@ fn pair(cx: &mut Ctx, rng: &mut Rng, old: &[u8], new: &[u8], blks: &[usize], lab
         // --- short-reading old source: K on the blocks, O on the patch bytes
         {
             // (large old: no schedule of only tiny reads — the list model re-walks old on every read call)
-            let ks: Vec<usize> = match (rng.below(5), old.len() >= DIGEST_MIN) {
+            let ks: Vec<usize> = match (rng.below(5), old.len() >= cx.sread_coarse_from) {
                 (0, false) => vec![1],
                 (1, false) => vec![1, 2, 3],
                 (2, false) => vec![7, 1],
@@ -1116,11 +1139,236 @@ fn large_blocks(cx: &mut Ctx, rng: &mut Rng, thorough: bool) {
     cx.kpstream = usize::MAX;
 }
 
+// ---------------------------------------------------------------------------------------------
+// stream 6: old and new share a LONG prefix and / or suffix (see main)
+// ---------------------------------------------------------------------------------------------
+
+#[derive(Clone)]
+enum Kind {
+    Noise,
+    Alpha(u64),
+    /// repeats of the unit; `true`: the unshared parts continue the same period (old = u^n, new = u^m:
+    /// the shared prefix and the shared suffix overlap)
+    Periodic(Vec<u8>, bool),
+    Wordy,
+}
+
+fn kind_name(k: &Kind) -> String {
+    match k {
+        Kind::Noise => "noise".into(),
+        Kind::Alpha(a) => format!("alphabet-{a}"),
+        Kind::Periodic(u, c) => format!("period-{}{}", u.len(), if *c { "-continued" } else { "" }),
+        Kind::Wordy => "dictionary-words".into(),
+    }
+}
+
+/// the shared run
+fn shared_content(rng: &mut Rng, k: &Kind, n: usize) -> Vec<u8> {
+    match k {
+        Kind::Noise => rng.bytes(n),
+        Kind::Alpha(a) => rand_bytes(rng, n, *a),
+        Kind::Periodic(u, _) => cycle(u, n),
+        Kind::Wordy => wordy(rng, n),
+    }
+}
+
+/// a part that is NOT shared
+fn unshared_content(rng: &mut Rng, k: &Kind, n: usize) -> Vec<u8> {
+    match k {
+        Kind::Periodic(u, true) => cycle(u, n),
+        Kind::Periodic(_, false) => rng.bytes(n),
+        _ => shared_content(rng, k, n),
+    }
+}
+
+/// make v[i] differ from the bytes of `avoid`: the shared run ends EXACTLY where the shape says
+fn differ(rng: &mut Rng, k: &Kind, v: &mut [u8], i: usize, avoid: &[Option<u8>]) {
+    if v.is_empty() || matches!(k, Kind::Periodic(_, true)) { return; }
+    let bad = |b: u8| avoid.iter().any(|a| *a == Some(b));
+    if !bad(v[i]) { return; }
+    if let Kind::Alpha(a) = k {
+        if let Some(b) = (0..*a as u8).map(|j| b'a' + j).find(|b| !bad(*b)) { v[i] = b; return; }
+    }
+    loop { let b = rng.byte(); if !bad(b) { v[i] = b; return; } }
+}
+
+/// first byte of v avoids `af`, last byte avoids `al`
+fn fix_ends(rng: &mut Rng, k: &Kind, v: &mut [u8], af: Option<u8>, al: Option<u8>) {
+    match v.len() {
+        0 => {}
+        1 => differ(rng, k, v, 0, &[af, al]),
+        n => { differ(rng, k, v, 0, &[af]); differ(rng, k, v, n - 1, &[al]); }
+    }
+}
+
+const SHARED_SHAPES: [&str; 17] = [
+    "equal", "lead-del", "trail-del", "lead-ins", "trail-ins", "mid-del", "mid-ins", "mid-replace", "mid-replace-same-length",
+    "infix-of-old", "infix-of-new", "shift-left", "shift-right", "lead-replace", "trail-replace", "two-edits", "two-deletions",
+];
+
+/// (old, new) of the given shape whose shared prefix + shared suffix is exactly `l` bytes
+/// (`hs`: lengths of the unshared parts to choose from)
+fn shared_pair(rng: &mut Rng, shape: &str, l: usize, k: &Kind, hs: &[usize]) -> (Vec<u8>, Vec<u8>) {
+    let h = *rng.pick(hs);
+    let g = if shape == "mid-replace-same-length" || rng.chance(1, 4) { h } else { *rng.pick(hs) };
+    let f = |v: &[u8]| v.first().copied();
+    let e = |v: &[u8]| v.last().copied();
+    // where a prefix AND a suffix are shared: |P| + |S| = l
+    let p = match rng.below(6) { 0 => l / 2, 1 => 1, 2 => l - 1, 3 => l.min(256) / 2, 4 => l - l.min(256) / 2, _ => rng.range(1, l as u64 - 1) as usize };
+    let x = shared_content(rng, k, l);
+    let (pp, ss) = x.split_at(p);
+    let mut hh = unshared_content(rng, k, h);
+    let mut gg = unshared_content(rng, k, g);
+    match shape {
+        "equal" => (x.clone(), x),
+        // H‖X vs X: no shared prefix, the whole of new is the shared suffix
+        "lead-del" | "lead-ins" => {
+            differ(rng, k, &mut hh, 0, &[f(&x)]);
+            let a = [&hh[..], &x].concat();
+            if shape == "lead-del" { (a, x) } else { (x, a) }
+        }
+        // X‖H vs X
+        "trail-del" | "trail-ins" => {
+            differ(rng, k, &mut hh, h - 1, &[e(&x)]);
+            let a = [&x[..], &hh].concat();
+            if shape == "trail-del" { (a, x) } else { (x, a) }
+        }
+        // P‖H‖S vs P‖S
+        "mid-del" | "mid-ins" => {
+            fix_ends(rng, k, &mut hh, f(ss), e(pp));
+            let a = [pp, &hh, ss].concat();
+            if shape == "mid-del" { (a, x) } else { (x, a) }
+        }
+        // P‖H‖S vs P‖G‖S
+        "mid-replace" | "mid-replace-same-length" => {
+            fix_ends(rng, k, &mut gg, f(&hh), e(&hh));
+            ([pp, &hh, ss].concat(), [pp, &gg, ss].concat())
+        }
+        // A‖X‖B vs X: nothing shared at either end, new (old) lies inside old (new)
+        "infix-of-old" | "infix-of-new" => {
+            differ(rng, k, &mut hh, 0, &[f(&x)]);
+            differ(rng, k, &mut gg, g - 1, &[e(&x)]);
+            let a = [&hh[..], &x, &gg].concat();
+            if shape == "infix-of-old" { (a, x) } else { (x, a) }
+        }
+        // H‖X vs X‖G  /  X‖H vs G‖X: the run is a suffix of one side and a prefix of the other
+        "shift-left" => {
+            differ(rng, k, &mut hh, 0, &[f(&x)]);
+            differ(rng, k, &mut gg, g - 1, &[e(&x)]);
+            ([&hh[..], &x].concat(), [&x[..], &gg].concat())
+        }
+        "shift-right" => {
+            differ(rng, k, &mut gg, 0, &[f(&x)]);
+            differ(rng, k, &mut hh, h - 1, &[e(&x)]);
+            ([&x[..], &hh].concat(), [&gg[..], &x].concat())
+        }
+        // H‖X vs G‖X  /  X‖H vs X‖G
+        "lead-replace" => {
+            fix_ends(rng, k, &mut gg, f(&hh), e(&hh));
+            ([&hh[..], &x].concat(), [&gg[..], &x].concat())
+        }
+        "trail-replace" => {
+            fix_ends(rng, k, &mut gg, f(&hh), e(&hh));
+            ([&x[..], &hh].concat(), [&x[..], &gg].concat())
+        }
+        // P‖H‖M‖S vs P‖M‖G‖S: the part between the shared ends has a match behind a seek
+        "two-edits" => {
+            let ml = *rng.pick(&[40usize, 300, 2000]);
+            let m = shared_content(rng, k, ml);
+            differ(rng, k, &mut hh, 0, &[f(&m)]);
+            differ(rng, k, &mut gg, g - 1, &[e(&m)]);
+            ([pp, &hh, &m, ss].concat(), [pp, &m, &gg, ss].concat())
+        }
+        // P‖H‖M‖G‖S vs P‖M‖S
+        _ => {
+            let ml = *rng.pick(&[40usize, 300, 2000]);
+            let m = shared_content(rng, k, ml);
+            differ(rng, k, &mut hh, 0, &[f(&m)]);
+            differ(rng, k, &mut gg, g - 1, &[e(&m)]);
+            ([pp, &hh, &m, &gg, ss].concat(), [pp, &m, ss].concat())
+        }
+    }
+}
+
+/// stream 6 (see main)
+fn shared_runs(cx: &mut Ctx, rng: &mut Rng, thorough: bool) {
+    let saved = (cx.bufs.clone(), cx.mutate, cx.sblks.clone());
+    cx.mutate = false;
+    cx.bufs = if thorough { vec![1024, 65536, 4096, 1, 16384] } else { vec![1024, 65536, 4096] };
+    if !thorough { cx.kstream = 2; cx.kpstream = 1; }
+    cx.sread_coarse_from = 2048;
+    let ths: Vec<usize> = if thorough { vec![256, 512, 1024, 2048, 4096, 8192, 16384, 32768, 65536] } else { vec![256, 1024, 4096, 8192, 65536] };
+    for t in ths {
+        let large = t >= DIGEST_MIN;
+        // large rows: K lines for a few shapes at the exact threshold, the oracle alone on the others
+        let kshapes: Vec<usize> = if thorough { (0..SHARED_SHAPES.len()).collect() } else { (0..3).map(|_| rng.below(SHARED_SHAPES.len() as u64) as usize).collect() };
+        for (si, shape) in SHARED_SHAPES.iter().enumerate() {
+            // shared length at and around the threshold
+            let ds: Vec<i64> = if thorough || t < REF_MIN { vec![0, 1, -1] } else { vec![0, *rng.pick(&[1i64, -1])] };
+            for d in ds {
+                for rep in 0..(if thorough { 2 } else { 1 }) {
+                    let l = (t as i64 + d) as usize;
+                    let k_lines = !large || (d == 0 && rep == 0 && kshapes.contains(&si));
+                    let kind = loop {
+                        let k = match rng.below(10) {
+                            0..=3 => Kind::Noise,
+                            4 | 5 => Kind::Alpha(2),
+                            6 => Kind::Alpha(4),
+                            7 | 8 => { let per = *rng.pick(&[1usize, 2, 7, 256]); Kind::Periodic(rng.bytes(per), rng.chance(1, 2)) }
+                            _ => Kind::Wordy,
+                        };
+                        // (bsdiff's scan re-compares a long periodic match at every position: seconds per
+                        //  pair from 64 KiB on in the real builder, and far longer in the list-based model)
+                        if large && (k_lines || t > DIGEST_MIN) && matches!(k, Kind::Periodic(..)) { continue; }
+                        break k;
+                    };
+                    // unshared parts: tiny / medium / large (thorough: also as long as the shared run)
+                    let mut hs = vec![1usize, rng.range(2, 8) as usize, 40, 300, 5000];
+                    if thorough { hs.push(l); }
+                    let (old, new) = shared_pair(rng, shape, l, &kind, &hs);
+                    cx.s.tally(&format!("shared.length.{t}{}", match d { 0 => "", 1 => "+1", _ => "-1" }));
+                    cx.s.tally(&format!("shared.content.{}", kind_name(&kind)));
+                    if !k_lines { cx.s.tally("shared.oracle-only"); }
+                    cx.sblks = vec![*rng.pick(&SBLKS)];
+                    let cb = *rng.pick(&[64usize, 256, 4096, 1 << 20]);
+                    cx.st.quiet = !k_lines;
+                    pair(cx, rng, &old, &new, &[cb], &format!("shared.{shape}"));
+                    cx.st.quiet = false;
+                }
+            }
+        }
+        // the same period on both sides, old = u^n and new = u^m: the longest shared prefix and the
+        // longest shared suffix overlap (each is the whole shorter side when the phases agree)
+        if t <= DIGEST_MIN {
+            let pers: Vec<usize> = if thorough { vec![1, 2, 7, 256] } else { vec![1, *rng.pick(&[2usize, 7, 256])] };
+            for per in pers {
+                let u = rng.bytes(per);
+                let l = (t as i64 + *rng.pick(&[0i64, 0, 1, -1])) as usize;
+                let h = *rng.pick(&[1usize, 7, 40, 256, 300, 5000]);
+                for (n, m) in [(l, l + h), (l + h, l)] {
+                    cx.s.tally(&format!("shared.length.{t}.same-period-{per}"));
+                    cx.sblks = vec![*rng.pick(&SBLKS)];
+                    let cb = *rng.pick(&[64usize, 256, 4096, 1 << 20]);
+                    cx.st.quiet = large;
+                    pair(cx, rng, &cycle(&u, n), &cycle(&u, m), &[cb], "shared.same-period");
+                    cx.st.quiet = false;
+                }
+            }
+        }
+    }
+    cx.bufs = saved.0;
+    cx.mutate = saved.1;
+    cx.sblks = saved.2;
+    cx.sread_coarse_from = DIGEST_MIN;
+    cx.kstream = usize::MAX;
+    cx.kpstream = usize::MAX;
+}
+
 fn main() {
     let args = Args::parse();
     quiet_panics();
     let mut s = Session::new(&args.out);
-    s.rule = "every (old,new) over {a,b} with both lengths <= L (L=4 quick, 6 thorough) x {simple, chunked blk in {0,1,4,64}, suffix, suffix under max_diff_block_size 1 / 2 [/ 3]} x {memory, streaming buf 1024[,4096]}; the SUFFIX builder under a configured max_diff_block_size on every generated pair (1-2 sizes from {1,2,3,4,7,8,16,32} / {0,1,2,5,64,256,2^20,usize::MAX}) and a dedicated stream of equal runs of 21/24/28/32/48/64/96 bytes (exact multiples >= 2x of the block sizes, and not) followed by a deletion / insertion / replacement / move / repeat / two deletions / changed run, each under ALL of {1,2,3,4,7,8,16,32} (+ 0 / usize::MAX); LARGE BLOCKS (quick: one pair per family; thorough: 40 KB / 70 KB / 200 KB each): incompressible extra block of 16383..65537 bytes around the 16 / 32 / 64 KiB boundaries (3 sizes quick, 13 thorough), 40 000 noise bytes appended / prepended / inserted, 70 144 (thorough 200 192 = 256k) noise bytes inserted, incompressible diff block (every 3rd byte of 96 000 noise bytes changed; thorough also 160 000 / 4th, 200 000 / 8th), compressible diff block (70 000 [200 000] noise bytes with 3 point edits), compressible extra block (204 800 bytes: one byte / periodic / dictionary words [/ 4-letter noise]), 200 000 unrelated noise bytes, 7 500 [9 000] control entries (control block > 32 KiB as stored; quick: oracle only, thorough: also K) and a hand-made consistent patch of 4 500 [9 000] entries with 48-bit seeks (K + length clause) — through every builder, the memory patcher and streaming buffers 1024 / 65536 / 4096 [/ 1 / 16384 / 2^20] (quick: K lines for memory + 1024 + 65536, oracle on all), with blocks of >= 4096 bytes written as references (@c @d @e @p @zc @zd @ze, @sa) on request lines and byte strings of >= 16384 bytes answered as length + FNV-1a 64; seeded random pairs to 4 KiB (edits: insert/delete/move/repeat/replace/point, empty old, empty new, equal, unrelated; alphabets 2, 4, 256) incl. a dedicated stream whose change is followed by >= 264 unchanged bytes with the inserted length a multiple of 256 or a periodic tail (the only way the chunked builder re-synchronises after an extra run), match runs of length 3/4/5 around the >=4 threshold, block sizes around the match length; mutated patches (sizes +-1, truncated blocks, seeks before 0 / beyond EOF / saturating, dropped / appended / invalid / partial control records) for the length clause. every built patch also as WHOLE BYTES (buildp: model-assembled header + framing vs the builder's bytes; applyp through apply_patch_memory and parse_from_patch + apply_patch_from_data) and through a short-reading old source (read() returns <= 1 / 1,2,3 / 7,1 / three random sizes / unbounded bytes per call); byte-level damage of real patches (header truncated at 0..31, body truncated, signature bit, each size field set to -1 / 0 / +-1 / 1e9 / 1e9+1 / i64::MIN / i64::MAX / the bytes available, sizes swapped, diff swallowing the extra block, trailing garbage, body bit flip) for the length clause on bytes and memory == streaming; hand-made headers around every validate comparison; the private offtout / offtin at i64::MIN, MIN+1, MAX, +-0, +-2^56, +-2^62 and random magnitudes of every bit length; unseekable source; default buffer. non-trivial = built patch has a diff run or >= 2 control entries (or is a mutated patch / codec value / header probe; short-read cases need a non-empty old); distinct = (builder, patcher, old, new) text".into();
+    s.rule = "every (old,new) over {a,b} with both lengths <= L (L=4 quick, 6 thorough) x {simple, chunked blk in {0,1,4,64}, suffix, suffix under max_diff_block_size 1 / 2 [/ 3]} x {memory, streaming buf 1024[,4096]}; the SUFFIX builder under a configured max_diff_block_size on every generated pair (1-2 sizes from {1,2,3,4,7,8,16,32} / {0,1,2,5,64,256,2^20,usize::MAX}) and a dedicated stream of equal runs of 21/24/28/32/48/64/96 bytes (exact multiples >= 2x of the block sizes, and not) followed by a deletion / insertion / replacement / move / repeat / two deletions / changed run, each under ALL of {1,2,3,4,7,8,16,32} (+ 0 / usize::MAX); LARGE BLOCKS (quick: one pair per family; thorough: 40 KB / 70 KB / 200 KB each): incompressible extra block of 16383..65537 bytes around the 16 / 32 / 64 KiB boundaries (3 sizes quick, 13 thorough), 40 000 noise bytes appended / prepended / inserted, 70 144 (thorough 200 192 = 256k) noise bytes inserted, incompressible diff block (every 3rd byte of 96 000 noise bytes changed; thorough also 160 000 / 4th, 200 000 / 8th), compressible diff block (70 000 [200 000] noise bytes with 3 point edits), compressible extra block (204 800 bytes: one byte / periodic / dictionary words [/ 4-letter noise]), 200 000 unrelated noise bytes, 7 500 [9 000] control entries (control block > 32 KiB as stored; quick: oracle only, thorough: also K) and a hand-made consistent patch of 4 500 [9 000] entries with 48-bit seeks (K + length clause) — through every builder, the memory patcher and streaming buffers 1024 / 65536 / 4096 [/ 1 / 16384 / 2^20] (quick: K lines for memory + 1024 + 65536, oracle on all), with blocks of >= 4096 bytes written as references (@c @d @e @p @zc @zd @ze, @sa) on request lines and byte strings of >= 16384 bytes answered as length + FNV-1a 64; LONG SHARED RUNS: old and new sharing a prefix and / or suffix of exactly T-1 / T / T+1 bytes for T in {256, 1 KiB, 4 KiB, 8 KiB, 64 KiB} [thorough: + 512, 2 KiB, 16 KiB, 32 KiB] (the bytes next to the run differ) with unshared parts of 1 / 2-8 / 40 / 300 / 5000 bytes [/ the run length] in 17 shapes — new = old, pure leading / trailing deletion / insertion (one side a proper suffix / prefix of the other), deletion / insertion / replacement (same and other length) in the middle with |prefix| + |suffix| = the length, one side an infix of the other, the run a suffix of one side and a prefix of the other, replacement before / behind the run, two edits / two deletions between the shared ends — over noise, 2- and 4-letter alphabets, periodic contents (period 1 / 2 / 7 / 256; also old = u^n, new = u^m where shared prefix and suffix overlap) and dictionary words, every builder incl. the suffix builder under a block size, memory patcher + streaming buffers 1024 / 65536 / 4096 + short-reading source (quick: all three lengths below 4 KiB, T and one neighbour from 4 KiB on; 64 KiB row: K lines for 3 shapes, oracle only on the others; no periodic content above 16 KiB — bsdiff's scan is quadratic there); seeded random pairs to 4 KiB (edits: insert/delete/move/repeat/replace/point, empty old, empty new, equal, unrelated; alphabets 2, 4, 256) incl. a dedicated stream whose change is followed by >= 264 unchanged bytes with the inserted length a multiple of 256 or a periodic tail (the only way the chunked builder re-synchronises after an extra run), match runs of length 3/4/5 around the >=4 threshold, block sizes around the match length; mutated patches (sizes +-1, truncated blocks, seeks before 0 / beyond EOF / saturating, dropped / appended / invalid / partial control records) for the length clause. every built patch also as WHOLE BYTES (buildp: model-assembled header + framing vs the builder's bytes; applyp through apply_patch_memory and parse_from_patch + apply_patch_from_data) and through a short-reading old source (read() returns <= 1 / 1,2,3 / 7,1 / three random sizes / unbounded bytes per call); byte-level damage of real patches (header truncated at 0..31, body truncated, signature bit, each size field set to -1 / 0 / +-1 / 1e9 / 1e9+1 / i64::MIN / i64::MAX / the bytes available, sizes swapped, diff swallowing the extra block, trailing garbage, body bit flip) for the length clause on bytes and memory == streaming; hand-made headers around every validate comparison; the private offtout / offtin at i64::MIN, MIN+1, MAX, +-0, +-2^56, +-2^62 and random magnitudes of every bit length; unseekable source; default buffer. non-trivial = built patch has a diff run or >= 2 control entries (or is a mutated patch / codec value / header probe; short-read cases need a non-empty old); distinct = (builder, patcher, old, new) text".into();
     let mut rng = Rng::new(args.seed);
     let mut st = St { old: vec![], new: vec![], last: None, patch: None, quiet: false };
 
@@ -1198,7 +1446,7 @@ fn main() {
 
     let thorough = args.thorough();
     let bufs = if thorough { vec![1024, 4096, 1] } else { vec![1024] };
-    let mut cx = Ctx { s: &mut s, st, bufs, mutate: true, sblks: vec![], big_replays: 6, klight: false, kstream: usize::MAX, kpstream: usize::MAX };
+    let mut cx = Ctx { s: &mut s, st, bufs, mutate: true, sblks: vec![], big_replays: 6, klight: false, kstream: usize::MAX, kpstream: usize::MAX, sread_coarse_from: DIGEST_MIN };
 
     // 1. exhaustive over {a,b}
     let lmax = if thorough { 6 } else { 4 };
@@ -1472,5 +1720,20 @@ fn main() {
             }
         }
     }
+
+    // 6. LONG SHARED RUNS: old and new share a prefix and / or suffix of exactly 256 / 1 KiB / 4 KiB /
+    //    8 KiB / 64 KiB bytes (and one byte less / more), with an empty / tiny / large unshared part:
+    //    new = old, pure leading / trailing deletion / insertion (one side a proper suffix / prefix of
+    //    the other), deletion / insertion / replacement in the middle, one side an infix of the other,
+    //    the run a suffix of one side and a prefix of the other, replacement before / behind the run,
+    //    two edits between the shared ends — noise, small alphabets, periodic (shared prefix and suffix
+    //    overlap) and dictionary-word contents, every builder, both patchers. The bytes next to a
+    //    shared run differ, so the shared length is exact.
+    //    (seeded change C16-2c — the suffix builder trimming >= 4 KiB of shared prefix + suffix into
+    //    zero-diff entries and losing the seek onto the suffix when nothing precedes it: new a proper
+    //    suffix of old with >= 4096 bytes — slipped through while random pairs ended at 2 KiB and the
+    //    large pairs were insertions / in-place changes only. Last in the run so that the streams
+    //    before it keep their random choices; ascending sizes, so the first failure is the smallest.)
+    shared_runs(&mut cx, &mut rng, thorough);
     s.finish();
 }
